@@ -10,6 +10,11 @@ func c07L2TP(entry string, n []uint64, f []string) string {
 	data := c07Arg(f, 0)
 	prefix := []string{}
 	switch entry {
+	case "chalresp": // chalresp - <observed> <md5>: VerifyChallengeResponse on a Challenge-Response AVP value from the peer
+		if VerifyChallengeResponse(3, []byte("secret"), []byte("0123456789abcdef"), data) != nil {
+			return "ok 1"
+		}
+		return "ok 0"
 	case "bldl2": // bldl2 <T,L,S,O,P,ver,tid,sid,ns,nr,offsz> <body>: AppendTo(nil, len(body)) ++ body fed to Parse
 		h := &Header{IsControl: c07Num(n, 0) != 0, HasLength: c07Num(n, 1) != 0, HasSequence: c07Num(n, 2) != 0,
 			HasOffset: c07Num(n, 3) != 0, Priority: c07Num(n, 4) != 0, Version: uint8(c07Num(n, 5)),
